@@ -24,6 +24,10 @@ CHECKS = {
    text="TLC model-checks spec/Superglobals.tla: the per-request cache design satisfies OwnDataOnly, the pinned process-wide cache (named deviation) is refuted. The state graph (2 requests x 2 superglobal reads, all 625 read programs, every interleaving) is forced through Go gates registered into the VM on a real Server/ServeMux; each read is compared with the reference (own data) and, if wrong, with the deviation layer's prediction for that very interleaving (equal => the listed known finding, different => VIOLATION). Responses of 500..5000 parallel requests (2..64 in flight) against handlers using locals, loops, arrays, objects, closures, recursion and the request object are compared with the same requests run alone.",
    note="Trusted: gates/whoami are harness functions registered in the VM (request = goroutine). The superglobal cache defect is a recorded known finding, matched per interleaving by the deviation layer; the parallel part does not run under -race because the known defect itself is a data race on package variables.",
    tech="TLA+ spec (Superglobals.tla, reference + deviation layer) checked by TLC; all interleavings of its graph forced on a real HTTP server through gates; parallel-vs-alone replay"),
+ "C19": dict(cat="model_checking", ref="§5 C19",
+   text="TLC model-checks spec/Generic.tla (Independence and WritesDoNotRetype as action properties, ExactlyOwnType) and prints its state graph; every sequence of up to 3 (quick) / 4 (thorough) instantiations and typed member writes over Box<T> and Pair<K,V> x {int,string,array,class} is replayed as a script and each write's acceptance compared with the reference verdict; wrong verdicts are classified by the deviation layer (first-instantiation-wins: fixed; params-unchecked: known finding); seeded sequences up to length 6 from TLC -simulate.",
+   note="Trusted: acceptance is observed as completion vs. catchable Throwable; fixture classes as listed in the evidence assumptions.",
+   tech="TLA+ spec (Generic.tla, reference + deviation layer) checked by TLC; state-graph paths replayed as scripts"),
 }
 NOT_YET = "check not built yet in this round (planned: TLA+ spec + conformance binding, see DESIGN.md §5)"
 def main():
